@@ -40,7 +40,10 @@ func (Engine) Generate(property, scenario string, seed uint64, tier string) *sim
 		ops = r.Range(4, 80)
 	}
 	for i := 0; i < ops; i++ {
-		kind := []string{"acquire", "release", "kill", "exit", "journal", "spawn"}[r.Weighted([]int{40, 25, 8, 4, 15, 8})]
+		// acquire-begin / acquire-finish split one acquisition at the point
+		// where the lock file is open and the lock call has not been made, so
+		// that other processes act in between.
+		kind := []string{"acquire", "release", "kill", "exit", "journal", "spawn", "acquire-begin", "acquire-finish"}[r.Weighted([]int{30, 25, 8, 4, 12, 8, 12, 12})]
 		p.Ops = append(p.Ops, simkit.Op{Actor: fmt.Sprintf("p%d", r.Intn(n)), Kind: kind})
 	}
 	return p
@@ -52,6 +55,8 @@ type proc struct {
 	out   *bufio.Scanner
 	alive bool
 	holds bool
+	// pending: stopped inside AcquireLock, lock file open, lock call not made.
+	pending bool
 }
 
 func (p *proc) send(cmd string) (string, error) {
@@ -96,7 +101,7 @@ func (Engine) Execute(t *testing.T, plan *simkit.Plan) *simkit.Result {
 		reap := func(p *proc) {
 			p.in.Close()
 			p.cmd.Wait()
-			p.alive, p.holds = false, false
+			p.alive, p.holds, p.pending = false, false, false
 		}
 		defer func() {
 			for _, p := range procs {
@@ -130,10 +135,39 @@ func (Engine) Execute(t *testing.T, plan *simkit.Plan) *simkit.Result {
 				}
 				continue
 			}
-			switch op.Kind {
-			case "acquire":
+			kind := op.Kind
+			if p.pending {
+				switch kind {
+				case "acquire", "acquire-finish":
+					kind = "acquire-finish"
+				case "kill", "exit":
+				default:
+					continue // blocked inside AcquireLock
+				}
+			} else if kind == "acquire-finish" {
+				continue
+			}
+			switch kind {
+			case "acquire-begin":
+				if p.holds {
+					continue
+				}
+				reply, err := p.send("acquire-begin")
+				if err != nil {
+					s.Violate("C28", "helper-died", "acquire", "%s died during acquire: %v", op.Actor, err)
+					return
+				}
+				s.Logf(op.Actor, "acquire-begin -> %s", strings.Fields(reply)[0])
+				if reply == "paused" {
+					p.pending = true
+					s.Count("probe.acquire_split", 1)
+				} else if reply != "already" {
+					s.Violate("C28", "helper-protocol", "acquire-begin", "unexpected reply %q", reply)
+				}
+			case "acquire", "acquire-finish":
 				h := holder()
-				reply, err := p.send("acquire")
+				p.pending = false
+				reply, err := p.send(kind)
 				if err != nil {
 					s.Violate("C28", "helper-died", "acquire", "%s died during acquire: %v", op.Actor, err)
 					return
